@@ -221,7 +221,13 @@ def spec_diff(r):
             from fractions import Fraction
             exp = Fraction(en, ed)
             got = ('%s' % float(Fraction(obs[0], obs[1]))) if obs[1] > 0 else 'nothing (%s)' % x.get('note', 'no value')
-            if x['how'].startswith('unpack'):
+            if x['leaf'] == '(whole struct)':
+                txt = ('%s: %s does not give the bytes pack() into a fresh buffer gives, or writes outside [offset, offset+size): %s'
+                       % (x['struct'], x['how'], x.get('note') or 'message bytes differ'))
+            elif x['leaf'] == '(kept object)':
+                txt = ('%s: an object unpacked earlier is no longer what it was after other messages were unpacked in the same interpreter (%s): %s'
+                       % (x['struct'], x['how'], x.get('note') or 'pack() output differs from the one taken right after unpack'))
+            elif x['how'].startswith('unpack'):
                 txt = ('%s::%s: C++ value %s written little-endian at the member\'s C++ offset; Python (%s) reads %s, the C++ struct means %s (scale %d/%d)'
                        % (x['struct'], x['leaf'], float(Fraction(*x['raw'])), x['how'], got, float(exp), x['scale'][0], x['scale'][1]))
             else:
